@@ -203,6 +203,17 @@ type Target struct {
 	File      string            // Gen file that receives the definition (default: targetFile[Out], else GenFuncs)
 	AssignRet string            // an assignment to this lvalue (source text) is the function's result
 	Renames   map[string]string // Go local/param name -> Gallina name
+	// Statement targets: translate only ONE statement of the function (the unique statement,
+	// searched through nested blocks and function literals, whose source text starts with Stmt).
+	// Rest is the Gallina term for "control falls out of the statement", Pre a Gallina
+	// let-prefix put in front (e.g. the zero value of a `var` declared before the statement).
+	Stmt string
+	Rest string
+	Pre  string
+	// Soft: a translation failure of this target does not abort go2v; the definition is
+	// left out of the Gen file (with the reason in a comment), so only the Coq files of the
+	// property that uses it stop compiling.
+	Soft bool
 }
 
 type fnctx struct {
@@ -479,7 +490,24 @@ func (c *fnctx) stmts(list []ast.Stmt, rest string) string {
 		return "let " + name + " := " + rhs + " in\n  " + tail()
 	case *ast.IfStmt:
 		if x.Init != nil {
-			failf("%s: if with init %q (add an SHint)", c.t.pos(s), c.t.src(s))
+			// only `if v := expr; cond {` is supported: a let around the if.  The let also
+			// scopes over the translated tail, so the tail must not mention another variable
+			// of the same name.
+			as, ok := x.Init.(*ast.AssignStmt)
+			if !ok || as.Tok != token.DEFINE || len(as.Lhs) != 1 || len(as.Rhs) != 1 {
+				failf("%s: unsupported if init %q (add an SHint)", c.t.pos(s), c.t.src(s))
+			}
+			id, ok := as.Lhs[0].(*ast.Ident)
+			if !ok {
+				failf("%s: unsupported if init %q", c.t.pos(s), c.t.src(s))
+			}
+			c.checkNoShadow(id, list[1:])
+			name := coqIdent(id.Name)
+			if r, ok := c.tg.Renames[id.Name]; ok {
+				name = r
+			}
+			return "let " + name + " := " + c.expr(as.Rhs[0]) + " in\n  " +
+				c.stmts(append([]ast.Stmt{&ast.IfStmt{If: x.If, Cond: x.Cond, Body: x.Body, Else: x.Else}}, list[1:]...), rest)
 		}
 		after := tail
 		// Assignments inside branches that fall through need a join: we handle only the
@@ -556,7 +584,7 @@ func (c *fnctx) stmts(list []ast.Stmt, rest string) string {
 		arms := []arm{}
 		for _, cc := range x.Body.List {
 			cl := cc.(*ast.CaseClause)
-			body := c.stmts(cl.Body, restTerm)
+			body := c.stmts(caseBody(cl.Body), restTerm)
 			if cl.List == nil {
 				deflt = body
 				continue
@@ -586,6 +614,33 @@ func (c *fnctx) stmts(list []ast.Stmt, rest string) string {
 	}
 	failf("%s: unsupported statement %q in %s", c.t.pos(s), c.t.src(s), c.tg.Func)
 	return ""
+}
+
+// caseBody: an unlabelled `break` directly in a case clause ends the clause (control falls out
+// of the switch); a break nested deeper is not supported (it reaches stmts and fails there).
+func caseBody(body []ast.Stmt) []ast.Stmt {
+	for i, b := range body {
+		if br, ok := b.(*ast.BranchStmt); ok && br.Tok == token.BREAK && br.Label == nil {
+			return body[:i]
+		}
+	}
+	return body
+}
+
+// checkNoShadow fails when the statements mention an identifier with the name of def that
+// denotes a different object (the let introduced for def would capture it).
+func (c *fnctx) checkNoShadow(def *ast.Ident, tail []ast.Stmt) {
+	obj := c.t.pkg.TypesInfo.Defs[def]
+	for _, s := range tail {
+		ast.Inspect(s, func(n ast.Node) bool {
+			if id, ok := n.(*ast.Ident); ok && id.Name == def.Name {
+				if o := c.t.pkg.TypesInfo.Uses[id]; o != nil && o != obj {
+					failf("%s: %q introduced by an if/switch init would capture a different variable at %s", c.t.pos(def), def.Name, c.t.pos(id))
+				}
+			}
+			return true
+		})
+	}
 }
 
 func terminatesStmt(s ast.Stmt) bool {
@@ -622,6 +677,25 @@ func terminates(list []ast.Stmt) bool {
 	return len(list) > 0 && terminatesStmt(list[len(list)-1])
 }
 
+// findStmt returns the unique statement of fd (nested blocks and function literals included)
+// whose source text starts with prefix.
+func (t *translator) findStmt(fd *ast.FuncDecl, prefix string, name string) ast.Stmt {
+	var found []ast.Stmt
+	ast.Inspect(fd.Body, func(n ast.Node) bool {
+		if st, ok := n.(ast.Stmt); ok {
+			if _, isBlock := st.(*ast.BlockStmt); !isBlock && strings.HasPrefix(t.src(st), prefix) {
+				found = append(found, st)
+				return false
+			}
+		}
+		return true
+	})
+	if len(found) != 1 {
+		failf("%s: %d statements of %s start with %q (exactly one expected)", t.pos(fd), len(found), name, prefix)
+	}
+	return found[0]
+}
+
 func (t *translator) emitFunc(tg *Target, w *bytes.Buffer) {
 	fd, ok := t.funcs[tg.Func]
 	if !ok {
@@ -630,7 +704,13 @@ func (t *translator) emitFunc(tg *Target, w *bytes.Buffer) {
 	if fd.Body == nil {
 		failf("function %s has no body", tg.Func)
 	}
-	ast.Inspect(fd.Body, func(n ast.Node) bool {
+	var scope ast.Node = fd.Body
+	var sel ast.Stmt
+	if tg.Stmt != "" {
+		sel = t.findStmt(fd, tg.Stmt, tg.Func)
+		scope = sel
+	}
+	ast.Inspect(scope, func(n ast.Node) bool {
 		switch n.(type) {
 		case *ast.ForStmt, *ast.RangeStmt, *ast.GoStmt, *ast.DeferStmt, *ast.SelectStmt, *ast.SendStmt:
 			failf("%s: %s contains a loop/go/defer/select/send: outside the translated subset", t.pos(n), tg.Func)
@@ -638,10 +718,26 @@ func (t *translator) emitFunc(tg *Target, w *bytes.Buffer) {
 		return true
 	})
 	c := &fnctx{t: t, tg: tg, fd: fd}
-	body := c.stmts(fd.Body.List, "")
+	var body string
+	if sel != nil {
+		body = c.stmts([]ast.Stmt{sel}, tg.Rest)
+		if tg.Pre != "" {
+			body = tg.Pre + "\n  " + body
+		}
+	} else {
+		body = c.stmts(fd.Body.List, "")
+	}
 	p := t.fset.Position(fd.Pos())
 	e := t.fset.Position(fd.End())
 	fmt.Fprintf(w, "\n(* from %s:%d-%d  func %s\n", filepath.Base(p.Filename), p.Line, e.Line, tg.Func)
+	if sel != nil {
+		sp := t.fset.Position(sel.Pos())
+		se := t.fset.Position(sel.End())
+		fmt.Fprintf(w, "   statement at lines %d-%d starting with: %s\n   falling out of it  =>  %s\n", sp.Line, se.Line, tg.Stmt, tg.Rest)
+		if tg.Pre != "" {
+			fmt.Fprintf(w, "   prefix: %s\n", tg.Pre)
+		}
+	}
 	keys := []string{}
 	for k := range tg.Hints {
 		keys = append(keys, k)
@@ -661,6 +757,28 @@ func (t *translator) emitFunc(tg *Target, w *bytes.Buffer) {
 	fmt.Fprintf(w, "*)\n")
 	ret := tg.Ret
 	fmt.Fprintf(w, "Definition %s %s : %s :=\n  %s.\n", tg.Out, tg.Params, ret, body)
+}
+
+// emitFuncSoft: as emitFunc, but a translation failure of a Soft target only leaves the
+// definition out (the Coq files that use it then fail to compile, naming it).
+func (t *translator) emitFuncSoft(tg *Target, w *bytes.Buffer) {
+	if !tg.Soft {
+		t.emitFunc(tg, w)
+		return
+	}
+	var tmp bytes.Buffer
+	defer func() {
+		if r := recover(); r != nil {
+			f, ok := r.(failure)
+			if !ok {
+				panic(r)
+			}
+			fmt.Fprintf(w, "\n(* NOT TRANSLATED: %s -- %s *)\n", tg.Out, strings.ReplaceAll(f.msg, "*)", "* )"))
+			fmt.Printf("go2v: NOT TRANSLATED (soft target) %s: %s\n", tg.Out, f.msg)
+		}
+	}()
+	t.emitFunc(tg, &tmp)
+	w.Write(tmp.Bytes())
 }
 
 // ---------------------------------------------------------------- site tables
@@ -904,7 +1022,7 @@ func main() {
 		fmt.Fprintf(&w, header, *repo)
 		fmt.Fprintf(&w, "From Verif Require Import Gen.GenConsts.\n")
 		for _, tg := range byFile[f] {
-			root.emitFunc(tg, &w)
+			root.emitFuncSoft(tg, &w)
 		}
 		writeIfChanged(filepath.Join(*out, f+".v"), w.Bytes())
 		fmt.Printf("go2v: %s.v %d functions\n", f, len(byFile[f]))
